@@ -25,7 +25,8 @@ import vlib
 PID = "C08"
 MODES = [[], ["--side-by-side"], ["--line-numbers"], ["--navigate"], ["--hyperlinks"], ["--width", "30", "--side-by-side"],
          ["--keep-plus-minus-markers"], ["--max-line-distance", "1.0"], ["--diff-so-fancy"], ["--tabs", "3"],
-         ["--word-diff-regex", "."], ["--line-numbers", "--side-by-side", "--wrap-max-lines", "1"]]
+         ["--word-diff-regex", "."], ["--line-numbers", "--side-by-side", "--wrap-max-lines", "1"],
+         ["--max-line-length", "20"], ["--max-line-length", "12", "--side-by-side"], ["--max-line-length", "30", "--line-numbers"]]
 
 
 def colourise(lines, r):
@@ -48,6 +49,17 @@ def colourise(lines, r):
             c = "\x1b[31m" if l[0] == "-" else "\x1b[32m"
             body = l[1:]
             ws = ""
+            if body.endswith("\r"):
+                # a CRLF file: git's colouring separates the carriage return from the line feed
+                body = body[:-1]
+                form = r.randrange(3)
+                if form == 0:
+                    out.append(c + l[0] + body + "\r" + reset)
+                elif form == 1:
+                    out.append(c + l[0] + reset + ((c + body + reset) if body else "") + "\x1b[41m\r" + reset + r.choice(["", "", "\x1b[K"]))
+                else:
+                    out.append(c + l[0] + reset + c + body + "\r" + reset + r.choice(["", reset]))
+                continue
             if l[0] == "+" and body.endswith((" ", "\t")) and r.random() < 0.8:
                 stripped = body.rstrip(" \t")
                 ws = "\x1b[41m" + body[len(stripped):] + reset     # git's whitespace-error highlight
@@ -94,6 +106,11 @@ def gen_equal_cases(tier, seed):
         # a `Binary files A and B differ` line of a section without names is passed through verbatim,
         # colours included (pass-through semantics, C04): not part of the equal-output claim
         d["sections"] = [s for s in d["sections"] if s["kind"] != "bin2"] or [gdiff.make_section("mod", "a.rs", "a.rs", [gdiff.gen_hunk(r, gdiff.Tok())])]
+        if r.random() < 0.25:
+            # a file with CRLF line ends
+            for s_ in d["sections"]:
+                for h in s_["hunks"]:
+                    h["body"] = [(k, t + "\r") for k, t in h["body"]]
         plain = gdiff.diff_lines(d)
         cases.append({"plain": plain, "coloured": colourise(plain, r), "mode": r.choice(MODES)})
     return cases
@@ -146,7 +163,7 @@ def main(tier, replay=None):
     vm = vlib.vmodel()
     drv = vlib.delta_driver()
     chk.rule = ("generated diffs coloured as git does with its default palette (split or joint marker colouring, both reset spellings, "
-                "bold headers, whitespace-error highlight) x 12 modes, compared bytewise with the plain diff's output; changed lines in "
+                "bold headers, whitespace-error highlight) x 15 modes, compared bytewise with the plain diff's output; changed lines in "
                 "random non-default SGR renditions (moved-line colours), with and without map-styles; non-trivial = input actually coloured")
     eq_cases = [] if replay else gen_equal_cases(tier, chk.seed)
     mv_cases = [json.load(open(replay))["case"]] if replay else gen_moved_cases(tier, chk.seed)
@@ -166,7 +183,15 @@ def main(tier, replay=None):
         chk.count("equal-output")
         if a[0] != 0 or b[0] != 0 or not a[1]:
             chk.violation({"property": PID, "shape": "crash", "why": f"exit status {a[0]} / {b[0]}", "input": "\n".join(c["coloured"])})
-        elif a[1] != b[1]:
+        elif "--max-line-length" in c["mode"] and term.strip(a[1]) != term.strip(b[1]):
+            # a header line cut short is no longer a header: it passes through, and pass-through text keeps the colours
+            # it came with (C04) - under truncation the visible text is compared, not the bytes
+            ra, rb = term.strip(a[1]).split("\n"), term.strip(b[1]).split("\n")
+            k = next((i for i, (x, y) in enumerate(zip(ra + [None], rb + [None])) if x != y), None)
+            chk.violation({"property": PID, "shape": "coloured-differs", "mode": " ".join(c["mode"]),
+                           "why": f"visible output for the coloured diff differs from the plain diff's at output line {k}: {rb[k] if k is not None and k < len(rb) else None!r} vs {ra[k] if k is not None and k < len(ra) else None!r}",
+                           "input_coloured": "\n".join(c["coloured"]), "input_plain": "\n".join(c["plain"])})
+        elif "--max-line-length" not in c["mode"] and a[1] != b[1]:
             ra, rb = a[1].split(b"\n"), b[1].split(b"\n")
             k = next((i for i, (x, y) in enumerate(zip(ra + [None], rb + [None])) if x != y), None)
             chk.violation({"property": PID, "shape": "coloured-differs", "mode": " ".join(c["mode"]),
@@ -238,7 +263,7 @@ def main(tier, replay=None):
     chk.oblige("correspondence:strip_ansi_codes", mism == 0, f"{mism} of {nwb} lines are stripped differently by model and implementation")
     chk.extra["traces_validated_against_impl"] = nwb - mism
     chk.assumptions = ["commit lines and other pass-through text keep their input colours by design (C04, raw commit style) and are not coloured in the equal-output stream",
-                       "lines stay under --max-line-length in both forms"]
+                       "three of the modes set a small --max-line-length: truncation must cut the coloured and the plain form alike"]
     vm.close()
     drv.close()
     return chk.finish()
